@@ -114,10 +114,12 @@ Qed.
 
 Lemma exec_dead_stays st x f t : dead st t = true -> dead (exec st x f) t = true.
 Proof.
-  intro Hd. destruct (Nat.eq_dec t (s_tid x)) as [->|Hn].
-  - unfold exec, active. destruct (s_kind x); simpl; rewrite ?Hd; simpl; try exact Hd.
-    destruct f; simpl; exact Hd.
-  - destruct (exec_other st x f t Hn) as (_ & _ & ->). exact Hd.
+  intro Hd. unfold exec, active.
+  destruct (s_kind x); simpl;
+    repeat match goal with
+           | |- context [if ?c then _ else _] => destruct c eqn:?; simpl
+           | |- context [match ?c with Some _ => _ | None => _ end] => destruct c eqn:?; simpl
+           end; unfold fupd; try (destruct (Nat.eqb t (s_tid x))); auto.
 Qed.
 
 Section L1.
@@ -201,7 +203,7 @@ Section L1.
     unfold exec. destruct (s_kind x) as [| | | | |p k| |]; simpl in Er; try discriminate.
     destruct (active st (s_tid x)); [|exact Hv].
     destruct f; [exact Hv|].
-    destruct (tmp st (s_tid x)) as [b|]; [|exact Hv]. simpl.
+    destruct (tmp st (s_tid x)) as [b|]; [|exact Hv]. cbn [vis set_tmp set_vis].
     rewrite lookup_upd. destruct (pk_eqb PCas d (p, k)); [discriminate | exact Hv].
   Qed.
 
@@ -296,7 +298,7 @@ Section L1.
           assert (Hmono : forall d', have_of st d' -> lookup (upd (vis st) p k b) PCas d' <> None).
           { intros d' Hv. rewrite lookup_upd. destruct (pk_eqb PCas d' (p, k)); [discriminate | exact Hv]. }
           split; [|split].
-          { unfold Inv, visible; simpl. split.
+          { unfold Inv, visible; cbn [vis set_tmp set_vis]. split.
             - intros d' b'. rewrite lookup_upd. destruct (pk_eqb PCas d' (p, k)) eqn:E.
               + apply pk_eqb_eq in E as [<- <-]. intro Eb; inversion Eb; subst. exact Hr.
               + apply I1.
@@ -304,10 +306,10 @@ Section L1.
               + apply pk_eqb_eq in E as [<- <-]. intro Eb; inversion Eb; subst.
                 intros d' Hin. apply Hmono. apply Hr; exact Hin.
               + intros Hv d' Hin. apply Hmono. exact (I2 k' r Hv d' Hin). }
-          { intros d' Hin. unfold visible; simpl. apply Hmono. apply Hm; exact Hin. }
+          { intros d' Hin. unfold visible; cbn [vis set_tmp set_vis]. apply Hmono. apply Hm; exact Hin. }
           split; [exact Htl|]. intros _. simpl. rewrite fupd_same, Hs.
           eapply all_ok_mono; [|exact Hrest].
-          intros d' [[-> ->]|Hh]; unfold have_of, visible; simpl.
+          intros d' [[-> ->]|Hh]; unfold have_of, visible; cbn [vis set_tmp set_vis].
           { rewrite lookup_upd_same. discriminate. }
           { apply Hmono; exact Hh. }
     - (* KRemove *)
@@ -384,29 +386,40 @@ Section L1.
     - eapply IH; eauto.
   Qed.
 
+  Lemma kinds_blob d cs rest :
+    op_kinds (OBlob d cs) ++ rest =
+    KCheck d :: KMkdir :: KCreate :: map KWrite cs ++ (KClose :: KRename PCas d :: KRemove :: KMemo d :: rest).
+  Proof. unfold op_kinds, set_kinds. simpl. rewrite <- !app_assoc. reflexivity. Qed.
+
+  Lemma kinds_result k cs rest :
+    op_kinds (OResult k cs) ++ rest =
+    KMkdir :: KCreate :: map KWrite cs ++ (KClose :: KRename PTarget k :: KRemove :: rest).
+  Proof. unfold op_kinds, set_kinds. simpl. rewrite <- !app_assoc. reflexivity. Qed.
+
   Lemma wf_all_ok ops : forall have tm,
     wf_ops H refs have ops -> all_ok false tm have (target_kinds ops).
   Proof.
-    induction ops as [|o ops IH]; intros have tm Hw; simpl; [exact I|].
-    unfold target_kinds in *. simpl.
-    destruct o as [d cs|k cs]; simpl in Hw; destruct Hw as [Hw1 Hw2]; simpl.
-    - (* blob *) split.
+    unfold target_kinds.
+    induction ops as [|o ops IH]; intros have tm Hw; [exact I|].
+    cbn [map concat].
+    destruct o as [d cs|k cs]; cbn [wf_ops] in Hw; destruct Hw as [Hw1 Hw2].
+    - (* blob *)
+      rewrite kinds_blob.
+      assert (Hrest : forall tm', all_ok false tm' (have_add PCas d have) (concat (map op_kinds ops))).
+      { intro tm'. apply IH. eapply have_add_equiv_wf; [|exact Hw2].
+        intros x [->|Hx]; [left; split; reflexivity | right; exact Hx]. }
+      cbn [all_ok]. split.
       + (* the check says "absent" (or fails): Set runs *)
-        apply all_ok_writes. simpl. split; [exact Hw1|].
-        assert (Hrest : all_ok false None (have_add PCas d have) (concat (map op_kinds ops))).
-        { apply IH. eapply have_add_equiv_wf; [|exact Hw2].
-          intros x [->|Hx]; [left; split; reflexivity | right; exact Hx]. }
-        split; (split; [intros _; left; split; reflexivity | exact Hrest]).
+        apply all_ok_writes. cbn [all_ok app]. split; [exact Hw1|].
+        split; (split; [intros _; left; split; reflexivity | apply Hrest]).
       + (* the check says "present": everything up to the deferred remove is skipped *)
-        apply all_ok_writes_skip. simpl.
-        assert (Hrest : forall tm', all_ok false tm' (have_add PCas d have) (concat (map op_kinds ops))).
-        { intro tm'. apply IH. eapply have_add_equiv_wf; [|exact Hw2].
-          intros x [->|Hx]; [left; split; reflexivity | right; exact Hx]. }
+        apply all_ok_writes_skip. cbn [all_ok].
         split; (split; [intros _; left; split; reflexivity | apply Hrest]).
     - (* result *)
-      apply all_ok_writes. simpl. split; [exact Hw1|].
+      rewrite kinds_result.
       assert (Hrest : forall tm', all_ok false tm' (have_add PTarget k have) (concat (map op_kinds ops))).
       { intro tm'. apply IH. eapply have_add_equiv_wf; [|exact Hw2]. intros x Hx; right; exact Hx. }
+      cbn [all_ok]. apply all_ok_writes. cbn [all_ok app]. split; [exact Hw1|].
       split; apply Hrest.
   Qed.
 
@@ -442,3 +455,298 @@ Section L1.
     apply wf_all_ok. eapply Forall_forall in Hwf; [exact Hwf|]. eapply nth_error_In; exact Hn.
   Qed.
 End L1.
+
+(* ------------------------------------------------------------------ one Set: visible only at the Rename *)
+Definition pre_kinds (cs : list bytes) : list skind := [KMkdir; KCreate] ++ map KWrite cs ++ [KClose].
+
+Lemma set_kinds_split p k cs : set_kinds p k cs = pre_kinds cs ++ [KRename p k; KRemove].
+Proof. unfold set_kinds, pre_kinds. rewrite <- !app_assoc. reflexivity. Qed.
+
+Lemma active_set_dead st t : active (set_dead st t) t = false.
+Proof. unfold active; simpl. rewrite fupd_same. reflexivity. Qed.
+
+Lemma option_map_app_nil (x : option bytes) : option_map (fun b => b ++ []) x = x.
+Proof. destruct x; simpl; [rewrite app_nil_r|]; reflexivity. Qed.
+
+Lemma run_writes t cs : forall st fl,
+  active (run_store st (map (mkStep t) (map KWrite cs)) fl) t = true ->
+  active st t = true /\
+  tmp (run_store st (map (mkStep t) (map KWrite cs)) fl) t = option_map (fun b => b ++ concat cs) (tmp st t).
+Proof.
+  induction cs as [|c cs IH]; intros st fl Ha; simpl in *.
+  - split; [exact Ha | symmetry; apply option_map_app_nil].
+  - unfold exec in *; simpl in *. destruct (active st t) eqn:Hact.
+    + destruct (hd false fl).
+      * apply IH in Ha as [Ha _]. rewrite active_set_dead in Ha. discriminate.
+      * apply IH in Ha as [_ Ht]. split; [reflexivity|]. rewrite Ht. simpl. rewrite fupd_same.
+        destruct (tmp st t); simpl; [rewrite <- app_assoc|]; reflexivity.
+    + apply IH in Ha as [Ha _]. congruence.
+Qed.
+
+Lemma Forall_firstn {A} (P : A -> Prop) l : forall n, Forall P l -> Forall P (firstn n l).
+Proof.
+  induction l as [|x l IH]; intros [|n] Hf; simpl; try constructor; inversion Hf; subst; auto.
+Qed.
+
+Lemma pre_non_rename t cs : Forall (fun x => is_rename (s_kind x) = false) (map (mkStep t) (pre_kinds cs)).
+Proof.
+  apply Forall_forall. intros x Hx. apply in_map_iff in Hx as [k [<- Hk]]. simpl.
+  unfold pre_kinds in Hk. simpl in Hk. destruct Hk as [<-|[<-|Hk]]; try reflexivity.
+  apply in_app_or in Hk as [Hk|[<-|[]]]; [|reflexivity].
+  apply in_map_iff in Hk as [c [<- _]]. reflexivity.
+Qed.
+
+Lemma step_plain_active st t k f :
+  (k = KClose \/ k = KMkdir) ->
+  active (exec st (mkStep t k) f) t = true ->
+  active st t = true /\ tmp (exec st (mkStep t k) f) t = tmp st t.
+Proof.
+  intros [-> | ->]; unfold exec; cbn [s_tid s_kind]; destruct (active st t) eqn:E; cbn [andb];
+    try (intro Hx; rewrite E in Hx; discriminate);
+    (destruct f; [rewrite active_set_dead; discriminate | auto]).
+Qed.
+
+Lemma step_create_active st t f :
+  active (exec st (mkStep t KCreate) f) t = true ->
+  active st t = true /\ tmp (exec st (mkStep t KCreate) f) t = Some [].
+Proof.
+  unfold exec; cbn [s_tid s_kind]. destruct (active st t) eqn:E.
+  - destruct f; [rewrite active_set_dead; discriminate|]. intros _. split; [reflexivity|].
+    cbn [tmp set_tmp]. apply fupd_same.
+  - intro Hx; rewrite E in Hx; discriminate.
+Qed.
+
+Lemma run_pre t cs st fl :
+  let s1 := run_store st (map (mkStep t) (pre_kinds cs)) fl in
+  vis s1 = vis st /\ (active s1 t = true -> tmp s1 t = Some (concat cs)).
+Proof.
+  split; [apply run_vis_non_rename, pre_non_rename|].
+  unfold pre_kinds. cbn [map app]. rewrite map_app. cbn [run_store map].
+  rewrite run_app. cbn [run_store]. intro Ha.
+  set (sa := exec st (mkStep t KMkdir) (hd false fl)) in *.
+  set (sb := exec sa (mkStep t KCreate) (hd false (tl fl))) in *.
+  set (sc := run_store sb (map (mkStep t) (map KWrite cs)) (tl (tl fl))) in *.
+  apply step_plain_active in Ha as [Hc Ht]; [|left; reflexivity]. rewrite Ht.
+  apply run_writes in Hc as [Hb Hw]. fold sc in Hw. rewrite Hw.
+  apply step_create_active in Hb as [_ Hbt]. fold sb in Hbt. rewrite Hbt. reflexivity.
+Qed.
+
+Theorem set_visible_only_complete t p k cs st n fl :
+  let steps := set_steps t p k cs in
+  let st' := run_store st (firstn n steps) fl in
+  (forall p' k', (p' <> p \/ k' <> k) -> visible st' p' k' = visible st p' k') /\
+  (visible st' p k = visible st p k \/
+   (visible st' p k = Some (concat cs) /\ length steps - 1 <= n)).
+Proof.
+  cbv zeta. unfold set_steps. rewrite set_kinds_split, map_app.
+  set (pre := map (mkStep t) (pre_kinds cs)).
+  rewrite firstn_app.
+  destruct (Nat.le_gt_cases n (length pre)) as [Hle|Hgt].
+  - replace (n - length pre) with 0 by lia. rewrite firstn_O, app_nil_r.
+    assert (Hv : vis (run_store st (firstn n pre) fl) = vis st).
+    { apply run_vis_non_rename. apply Forall_firstn. apply pre_non_rename. }
+    unfold visible. rewrite Hv. split; [reflexivity | left; reflexivity].
+  - rewrite firstn_all2 by lia.
+    destruct (n - length pre) as [|j] eqn:Ej; [lia|]. simpl map. simpl firstn.
+    rewrite run_app. simpl run_store.
+    destruct (run_pre t cs st fl) as [Hv1 Htm]. fold pre in Hv1, Htm.
+    set (s1 := run_store st pre fl) in *.
+    set (f := hd false (skipn (length pre) fl)).
+    set (s2 := exec s1 (mkStep t (KRename p k)) f).
+    assert (Hv3 : vis (run_store s2 (firstn j [mkStep t KRemove]) (tl (skipn (length pre) fl))) = vis s2).
+    { apply run_vis_non_rename. apply Forall_firstn. repeat constructor. }
+    unfold visible. rewrite Hv3.
+    assert (Hlen : length (pre ++ [mkStep t (KRename p k); mkStep t KRemove]) - 1 <= n).
+    { rewrite app_length. simpl. lia. }
+    unfold s2, exec; simpl. destruct (active s1 t) eqn:Ha.
+    + destruct f.
+      * simpl. rewrite Hv1. split; [reflexivity | left; reflexivity].
+      * rewrite (Htm eq_refl). cbn [vis set_tmp set_vis]. rewrite Hv1. split.
+        { intros p' k' Hn. apply lookup_upd_other; exact Hn. }
+        { right. split; [apply lookup_upd_same | exact Hlen]. }
+    + rewrite Hv1. split; [reflexivity | left; reflexivity].
+Qed.
+
+(* no step other than a Rename changes what is visible, whatever the fault: temp files are never visible *)
+Theorem temps_never_visible st x f p k :
+  is_rename (s_kind x) = false -> visible (exec st x f) p k = visible st p k.
+Proof. intro Hk. unfold visible. rewrite exec_vis_non_rename by exact Hk. reflexivity. Qed.
+
+(* ---- non-vacuity: a concrete two-target build, digest = identity, results = comma separated digests *)
+Definition ex_H (b : bytes) : key := b.
+Definition ex_blob (s : String.string) : op := OBlob (lit s) [lit s].
+Definition ex_opss : list (list op) :=
+  [ [ex_blob "aa"; ex_blob "b"; OResult (lit "k1") [lit "aa,"; lit "b"]];
+    [ex_blob "b"; OResult (lit "k2") [lit "b"]] ].
+Definition ex_il : list step := merge_by [0; 1; 1; 0; 0; 1; 1; 1; 0; 1; 1; 1; 0; 0; 1] (per_target_lists ex_opss).
+
+Ltac il_step :=
+  first [ refine (il_cons _ _ [] _ _ _) | refine (il_cons _ _ [_] _ [] _) ].
+
+Lemma ex_interleaving : interleaving ex_il (per_target_lists ex_opss).
+Proof.
+  vm_compute. repeat il_step. apply il_nil. repeat constructor.
+Qed.
+
+Lemma ex_wf : Forall (wf_ops ex_H refs_csv (have_of (boot []))) ex_opss.
+Proof.
+  repeat constructor; simpl; try reflexivity; vm_compute; intros d Hd;
+    repeat (destruct Hd as [<-|Hd]; [tauto|]); contradiction.
+Qed.
+
+Lemma ex_inv0 : Inv ex_H refs_csv (boot []) /\ idle (boot []).
+Proof.
+  split; [split; intros; discriminate|]. split; [intros d []|reflexivity].
+Qed.
+
+Lemma ex_final :
+  visible (run_store (boot []) ex_il []) PTarget (lit "k1") = Some (lit "aa,b") /\
+  visible (run_store (boot []) ex_il []) PCas (lit "aa") = Some (lit "aa") /\
+  visible (run_store (boot []) (firstn 20 ex_il) []) PTarget (lit "k1") = None /\
+  length ex_il = 43.
+Proof. vm_compute. repeat split. Qed.
+
+(* ================================================================== Layer 2 *)
+Lemma loc_set_loc_same w m f : loc (set_loc w m f) m = f.
+Proof. destruct m; reflexivity. Qed.
+
+Lemma rem_set_loc w m f : rem (set_loc w m f) = rem w.
+Proof. destruct m; reflexivity. Qed.
+
+Lemma wmemo_set_loc w m f : wmemo (set_loc w m f) = wmemo w.
+Proof. destruct m; reflexivity. Qed.
+
+Lemma lookup_none_is_some m p k : is_some (lookup m p k) = false <-> lookup m p k = None.
+Proof. destruct (lookup m p k); simpl; split; intro; congruence. Qed.
+
+(* ---- faults degrade: a wrapper Get returns the stored bytes, a miss or an error; never other bytes *)
+Theorem get_faults_degrade w m p k :
+  let (r, w') := w_get w m p k in
+  rem w' = rem w /\
+  match r with
+  | RHit b => (lookup (loc w m) p k = Some b \/
+               (lookup (loc w m) p k = None /\ lookup (rem w) p k = Some b)) /\
+              lookup (loc w' m) p k = Some b
+  | RMiss => loc w' m = loc w m
+  | RErr => loc w' m = loc w m
+  | _ => False
+  end.
+Proof.
+  unfold w_get. destruct (lookup (loc w m) p k) as [b|] eqn:El.
+  - split; [reflexivity|]. split; [left; reflexivity | exact El].
+  - unfold r_get, next_rf. destruct (hd FNone (rfl w)); cbn [rem locA locB];
+      try (split; [reflexivity | destruct m; reflexivity]).
+    destruct (lookup (rem w) p k) as [b|] eqn:Er.
+    + unfold fs_set, next_lf. destruct (hd LOk (lfl w)).
+      * rewrite rem_set_loc. split; [reflexivity|]. split.
+        { right. split; [destruct m; exact El | reflexivity]. }
+        { rewrite loc_set_loc_same. apply lookup_upd_same. }
+      * split; [reflexivity | destruct m; reflexivity].
+      * split; [reflexivity | destruct m; reflexivity].
+    + split; [reflexivity | destruct m; reflexivity].
+Qed.
+
+(* every op of a sequence produces an outcome (the model's functions are total: no stuck state) *)
+Lemma run_ops_total ops : forall w, length (fst (run_ops w ops)) = length ops.
+Proof.
+  induction ops as [|o ops IH]; intro w; simpl; [reflexivity|].
+  destruct (do_op w o) as [x w1]. specialize (IH w1). destruct (run_ops w1 ops) as [xs w2].
+  simpl in *. congruence.
+Qed.
+
+(* ---- machine B restores through the wrapper *)
+Definition agrees (w : world) : Prop :=
+  forall p k b, lookup (locB w) p k = Some b -> lookup (rem w) p k = Some b.
+
+Lemma get_fill_B w p k b :
+  agrees w -> rfl w = [] -> lfl w = [] -> lookup (rem w) p k = Some b ->
+  exists w', w_get w MB p k = (RHit b, w') /\ agrees w' /\ rem w' = rem w /\ rfl w' = [] /\ lfl w' = [] /\
+             lookup (locB w') p k = Some b /\
+             (forall p' k' b', lookup (locB w) p' k' = Some b' -> lookup (locB w') p' k' = Some b').
+Proof.
+  intros Hag Hr Hl Hrem. unfold w_get. simpl loc.
+  destruct (lookup (locB w) p k) as [b0|] eqn:El.
+  - pose proof (Hag p k b0 El) as E. rewrite Hrem in E. inversion E; subst b0.
+    exists w. repeat split; auto.
+  - unfold r_get, next_rf. rewrite Hr. simpl. rewrite Hrem.
+    unfold fs_set, next_lf. simpl. rewrite Hl. simpl.
+    eexists. split; [reflexivity|]. simpl. repeat split; auto.
+    + intros p' k' b'. rewrite lookup_upd. destruct (pk_eqb p' k' (p, k)) eqn:E.
+      * apply pk_eqb_eq in E as [-> ->]. intro Eb; inversion Eb; subst. exact Hrem.
+      * apply Hag.
+    + apply lookup_upd_same.
+    + intros p' k' b' Hb. rewrite lookup_upd. destruct (pk_eqb p' k' (p, k)) eqn:E; [|exact Hb].
+      apply pk_eqb_eq in E as [-> ->]. congruence.
+Qed.
+
+Definition get_ops (items : list (path * key)) : list wop :=
+  map (fun e => Do MB Wrapped (AGet (fst e) (snd e))) items.
+
+Definition remote_answer (w : world) (e : path * key) : res :=
+  match lookup (rem w) (fst e) (snd e) with Some b => RHit b | None => RMiss end.
+
+Lemma B_reads items : forall w,
+  agrees w -> rfl w = [] -> lfl w = [] ->
+  (forall e, In e items -> lookup (rem w) (fst e) (snd e) <> None) ->
+  fst (run_ops w (get_ops items)) = map (remote_answer w) items /\
+  rem (snd (run_ops w (get_ops items))) = rem w /\
+  (forall e, In e items -> lookup (locB (snd (run_ops w (get_ops items)))) (fst e) (snd e) = lookup (rem w) (fst e) (snd e)) /\
+  (forall p k b, lookup (locB w) p k = Some b -> lookup (locB (snd (run_ops w (get_ops items)))) p k = Some b).
+Proof.
+  induction items as [|[p k] items IH]; intros w Hag Hr Hl Hall; simpl.
+  - repeat split; auto. intros e [].
+  - destruct (lookup (rem w) p k) as [b|] eqn:Eb; [|exfalso; apply (Hall (p, k)); [left; reflexivity | exact Eb]].
+    destruct (get_fill_B w p k b Hag Hr Hl Eb) as (w1 & Hg & Hag1 & Hrem1 & Hr1 & Hl1 & Hhit & Hkeep).
+    rewrite Hg.
+    assert (Hall1 : forall e, In e items -> lookup (rem w1) (fst e) (snd e) <> None).
+    { intros e He. rewrite Hrem1. apply Hall. right; exact He. }
+    destruct (IH w1 Hag1 Hr1 Hl1 Hall1) as (I1 & I2 & I3 & I4).
+    destruct (run_ops w1 (get_ops items)) as [xs w2] eqn:E2. simpl in *.
+    repeat split.
+    + unfold remote_answer at 1. simpl. rewrite Eb. f_equal. rewrite I1.
+      apply map_ext_in. intros e _. unfold remote_answer. rewrite Hrem1. reflexivity.
+    + congruence.
+    + intros e [<-|He]; simpl.
+      * rewrite Eb. apply I4. exact Hhit.
+      * rewrite I3 by exact He. rewrite Hrem1. reflexivity.
+    + intros p' k' b' Hb. apply I4. apply Hkeep. exact Hb.
+Qed.
+
+Section Restore.
+  Variable refs : bytes -> list key.
+
+  Definition remote_complete (w : world) (results : list key) : Prop :=
+    forall k, In k results ->
+      exists r, lookup (rem w) PTarget k = Some r /\ forall d, In d (refs r) -> lookup (rem w) PCas d <> None.
+
+  (* what a build on B reads for the given results: each result, then every blob it references *)
+  Definition restore_items (w : world) (results : list key) : list (path * key) :=
+    flat_map (fun k => (PTarget, k) ::
+                       match lookup (rem w) PTarget k with
+                       | Some r => map (fun d => (PCas, d)) (refs r)
+                       | None => []
+                       end) results.
+
+  Theorem machineB_restores w results :
+    remote_complete w results -> locB w = [] -> rfl w = [] -> lfl w = [] ->
+    let items := restore_items w results in
+    let out := run_ops w (get_ops items) in
+    fst out = map (remote_answer w) items /\
+    (forall e, In e items -> exists b, lookup (rem w) (fst e) (snd e) = Some b /\
+                                       lookup (locB (snd out)) (fst e) (snd e) = Some b) /\
+    rem (snd out) = rem w.
+  Proof.
+    intros Hc Hb Hr Hl items out.
+    assert (Hag : agrees w) by (intros p k b; rewrite Hb; discriminate).
+    assert (Hall : forall e, In e items -> lookup (rem w) (fst e) (snd e) <> None).
+    { intros e He. unfold items, restore_items in He. apply in_flat_map in He as [k [Hk He]].
+      destruct (Hc k Hk) as [r [Er Hd]]. rewrite Er in He. destruct He as [<-|He]; simpl.
+      - rewrite Er. discriminate.
+      - apply in_map_iff in He as [d [<- Hin]]. simpl. apply Hd; exact Hin. }
+    destruct (B_reads items w Hag Hr Hl Hall) as (I1 & I2 & I3 & _).
+    split; [exact I1|]. split; [|exact I2].
+    intros e He. specialize (Hall e He). specialize (I3 e He).
+    destruct (lookup (rem w) (fst e) (snd e)) as [b|] eqn:E; [|congruence].
+    exists b. split; [reflexivity | exact I3].
+  Qed.
+End Restore.
